@@ -712,6 +712,36 @@ def _check_c18(tier, seed, macro_profile="macrodev"):
         rec = dict(kind="regime-" + cls, what="generated code does not compile in a #![no_std] #![deny(missing_docs)] crate although every user item is documented", case=u.uid, family=c.get("family", c["kind"]),
                    program="\n".join(NO_STD_HEADER[:4]) + "\n" + unit_text(u), observed="%s: %s" % (code, msg[:300]), expected="no diagnostic", replay_kind="compile", expect="accept", header="no_std")
         res.violations.append((dict(category="regime-" + cls, shape=(msg[:60] if cls != "other-error" else str(code))), rec))
+    # hostile scope: the same programs in modules where the unqualified prelude names a macro might be tempted to emit
+    # (`Result`, `Ok`, `Err`, `Default`) are taken by user items -- a crate-wide `type Result<T>` alias or a glob-imported
+    # enum with such variants are common in driver code. Generated code that "refers to nothing outside core and arbitrary_int"
+    # must not care.
+    hostile = ["#[allow(dead_code)] type Result<T> = ::core::result::Result<T, ()>;",
+               "#[allow(dead_code)] enum ShadowedPreludeNames { Default, Ok, Err }",
+               "#[allow(unused_imports)] use ShadowedPreludeNames::*;"]
+    h_units = []
+    for u in units:
+        if u.uid not in clean:
+            continue
+        c = dict(u.meta["case"], prelude_lines=hostile)
+        h_units.append(decl_unit(c, docs=True, uid=u.uid + "/hostile-scope"))
+    with build.Lock():
+        h_errors, h_st = cm.outcomes(h_units, art, "c18h", header=NO_STD_HEADER, iterate=True)
+    cov["hostile_scope_programs"] = len(h_units)
+    cov["hostile_scope_clean"] = len(h_units) - len(h_errors)
+    cov["evaluations"] += len(h_units)
+    for u in h_units:
+        errs = h_errors.get(u.uid, [])
+        if not errs:
+            continue
+        part, code, msg = errs[0]
+        c = u.meta["case"]
+        import re as _re2
+        captured = sorted({w for w in ("Result", "Default", "Ok", "Err") for e in errs if _re2.search(r"\b%s\b" % w, e[2])}) or ["?"]
+        rec = dict(kind="name-capture", what="generated code stops compiling when the enclosing module defines its own %s: it refers to that item instead of core's" % "/".join(captured), case=u.uid,
+                   family=c.get("family", c["kind"]), program="\n".join(NO_STD_HEADER[:4]) + "\n" + unit_text(u), observed="%s: %s" % (code, msg[:300]), expected="no diagnostic",
+                   replay_kind="compile", expect="accept", header="no_std")
+        res.violations.append((dict(category="name-capture", shape="/".join(captured)), rec))
     bodies = set()
     shown = 0
     allowed = ALLOWED_HEADS | user_idents
